@@ -128,8 +128,10 @@ def _expand_task(arg):
                 viols = []
                 if not res.ok:
                     viols.append((res.clause, res.detail))
-                viols += spec.step_check(w, before, after, res, hist, model_before)
-                out.append((op, _canon(w, after), w.model.state(), viols))
+                canon = _canon(w, after)
+                mstate = w.model.state()
+                viols += spec.step_check(w, before, after, res, hist, model_before)   # may disturb the world: runs last
+                out.append((op, canon, mstate, viols))
         except ExecTimeout as exc:
             out.append((op, ('hang', repr(hist), repr(op)), None, [('hang', f'operation {op} after {hist}: {exc}')]))
         finally:
